@@ -35,6 +35,11 @@ def run(ctx):
         for v in (-1, 0, 1, 2):
             tasks.append(dict(fn='timing', kw=dict(design=d, variant=v)))
         tasks.append(dict(fn='paths_fanout', kw=dict(design=d)))
+    # histories: earlier analyses (custom tables, default table) in the same process
+    for i, d in enumerate(fam):
+        if i % 3 == 0:
+            tasks.append(dict(fn='timing', kw=dict(design=d, variant=-1, history=[1])))
+            tasks.append(dict(fn='timing', kw=dict(design=d, variant=0, history=[-1, 1])))
     res = passcheck.pmap(_call, tasks)
     n = {'timing': 0, 'paths_fanout': 0}
     for t, r in zip(tasks, res):
@@ -47,14 +52,16 @@ def run(ctx):
         if r['failed']:
             kw = t['kw']
             ctx.confirm_and_report('C17.%s[%s%s]' % (t['fn'], passcheck._dname(kw['design']),
-                                                     ',variant=%d' % kw['variant'] if 'variant' in kw else ''),
+                                                     (',variant=%d' % kw['variant'] if 'variant' in kw else '') +
+                                                     (',after=%s' % kw['history'] if kw.get('history') else '')),
                                    'call', dict(module='fam.timingcheck', func=t['fn'], kwargs=kw),
                                    canonical_input=dict(fn=t['fn'], kw=kw),
                                    function='pyrtl.analysis', text='analysis differs from its graph definition')
     ctx.family('C17.timing', 'B', instances=n['timing'], evaluations=n['timing'], nontrivial=n['timing'],
                bound='designs x {default delays, 3 custom integer delay tables incl. end-of-block ops}: '
                      'timing_map vs memoised longest path, max_length, max_freq (4 parameter sets), '
-                     'critical paths = all maximal chains', sample=tasks[0])
+                     'critical paths = all maximal chains; analyses repeated after other analyses (custom / default '
+                     'tables) in one process; caller\'s table unchanged', sample=tasks[0])
     ctx.family('C17.paths_fanout', 'B', instances=n['paths_fanout'], evaluations=n['paths_fanout'],
                nontrivial=n['paths_fanout'],
                bound='all (Input|Register) x (Output|Register) pairs: paths == independent simple-net-path '
